@@ -372,6 +372,76 @@ fn gen_format(rng: &mut Rng, allow_array_json: bool) -> FmtSpec {
 // ---------------------------------------------------------------------------------------------------
 // canonical forms shared with the driver
 
+/// the same on TEXT that prints such an object (`{"csv":{"column":"message",…}}`, compact JSON): the messages
+/// blanked, the columns sorted.  For what a JSON member of a Combined policy writes after a CSV member.
+fn mask_csv_errors(text: &str) -> String {
+    fn string_lit(cs: &[char], mut i: usize) -> Option<(String, usize)> {
+        if cs.get(i) != Some(&'"') {
+            return None;
+        }
+        let mut lit = String::from("\"");
+        i += 1;
+        while i < cs.len() {
+            match cs[i] {
+                '\\' if i + 1 < cs.len() => {
+                    lit.push(cs[i]);
+                    lit.push(cs[i + 1]);
+                    i += 2;
+                }
+                '"' => {
+                    lit.push('"');
+                    return Some((lit, i + 1));
+                }
+                c => {
+                    lit.push(c);
+                    i += 1;
+                }
+            }
+        }
+        None
+    }
+    fn entries(cs: &[char], mut i: usize) -> Option<(Vec<String>, usize)> {
+        let mut keys = vec![];
+        if cs.get(i) == Some(&'}') && cs.get(i + 1) == Some(&'}') {
+            return Some((keys, i + 2));
+        }
+        loop {
+            let (k, j) = string_lit(cs, i)?;
+            if cs.get(j) != Some(&':') {
+                return None;
+            }
+            let (_, j2) = string_lit(cs, j + 1)?;
+            keys.push(k);
+            if cs.get(j2) == Some(&',') {
+                i = j2 + 1;
+            } else if cs.get(j2) == Some(&'}') && cs.get(j2 + 1) == Some(&'}') {
+                return Some((keys, j2 + 2));
+            } else {
+                return None;
+            }
+        }
+    }
+    let cs: Vec<char> = text.chars().collect();
+    let pat: Vec<char> = "{\"csv\":{".chars().collect();
+    let mut out = String::new();
+    let mut i = 0;
+    while i < cs.len() {
+        if cs[i..].starts_with(&pat) {
+            if let Some((mut keys, j)) = entries(&cs, i + pat.len()) {
+                keys.sort();
+                out.push_str("{\"csv\":{");
+                out.push_str(&keys.iter().map(|k| format!("{}:\"\"", k)).collect::<Vec<_>>().join(","));
+                out.push_str("}}");
+                i = j;
+                continue;
+            }
+        }
+        out.push(cs[i]);
+        i += 1;
+    }
+    out
+}
+
 /// blank the messages and sort the keys of a `{"csv": {column: message…}}` value
 fn canon_csv_err(v: &Value) -> Value {
     if let Value::Object(o) = v {
@@ -672,6 +742,15 @@ fn clip(s: &str) -> String {
 
 fn case_f(ctx: &mut Ctx, idx: usize, fmt: &FmtSpec, resp: &Value) {
     let real = fmt.build();
+    // the mapping as loaded lists the columns under the configured names in the configured order (the
+    // orientation of header and rows — reversed or sorted — is the model's to get right)
+    if let (ResponseOutputFormat::Csv { mapping, .. }, FmtSpec::Csv { cols, .. }) = (&real, fmt) {
+        let loaded: Vec<&String> = mapping.keys().collect();
+        let configured: Vec<&String> = cols.iter().map(|(k, _)| k).collect();
+        if loaded != configured {
+            ctx.fail(idx, "sink/csv-column-order", format!("configured columns {:?}, loaded mapping iterates {:?}", configured, loaded));
+        }
+    }
     let line = format!("F {} {}", fmt.enc(), enc(resp));
     let header = real.initial_file_contents();
     let mut after = resp.clone();
@@ -1051,7 +1130,7 @@ fn case_x(ctx: &mut Ctx, idx: usize, fmts: &[FmtSpec], nest: bool, resp: &Value)
                 let header = f.build().initial_file_contents().unwrap_or_default();
                 let rows = file.strip_prefix(header.as_str()).unwrap_or(&file);
                 s.push(' ');
-                s.push_str(&hex(rows));
+                s.push_str(&hex(&mask_csv_errors(rows)));
             }
             s.push_str(&format!(" P {}", enc(&canon(&after))));
             check_preserved(ctx, idx, resp, &after);
@@ -1161,6 +1240,24 @@ fn before_csv_write(cols: &[(String, MapSpec)], post: &Value) -> Value {
     }
 }
 
+/// the value with the keys of every object sorted (the application fills some of its objects from hash maps:
+/// two runs of one query may order them differently)
+fn sorted_keys(v: &Value) -> Value {
+    match v {
+        Value::Object(o) => {
+            let mut ks: Vec<&String> = o.keys().collect();
+            ks.sort();
+            let mut m = Map::new();
+            for k in ks {
+                m.insert(k.clone(), sorted_keys(&o[k]));
+            }
+            Value::Object(m)
+        }
+        Value::Array(xs) => Value::Array(xs.iter().map(sorted_keys).collect()),
+        other => other.clone(),
+    }
+}
+
 /// returns the file the run left
 fn case_a(ctx: &mut Ctx, idx: usize, app: &CompassApp, c0: &AppCase) -> Option<String> {
     let path = file_path(idx);
@@ -1184,11 +1281,18 @@ fn case_a(ctx: &mut Ctx, idx: usize, app: &CompassApp, c0: &AppCase) -> Option<S
             Some(own) => {
                 if let (ResponseOutputPolicy::File { format: ResponseOutputFormat::Csv { mapping, .. }, .. }, FmtSpec::Csv { cols, sorted }) = (&own.response_output_policy, &c0.fmt) {
                     let order: Vec<String> = mapping.keys().cloned().collect();
-                    let reordered: Vec<(String, MapSpec)> = order.iter().filter_map(|k| cols.iter().find(|(c, _)| c == k).cloned()).collect();
-                    if reordered.len() == cols.len() {
-                        c_eff.fmt = FmtSpec::Csv { cols: reordered, sorted: *sorted };
+                    let configured: Vec<String> = cols.iter().map(|(k, _)| k.clone()).collect();
+                    if order == configured {
+                        // as configured, in the configured order
+                    } else if order.len() == configured.len() && order == configured.iter().map(|k| k.to_lowercase()).collect::<Vec<_>>() {
+                        ctx.fail(idx, "app/toml-mapping-keys-lowercased", format!("the application configuration names the columns {:?}, the loaded mapping names them {:?}", configured, order));
+                        // go on with the names the file will carry
+                        c_eff.fmt = FmtSpec::Csv { cols: cols.iter().map(|(k, m)| (k.to_lowercase(), m.clone())).collect(), sorted: *sorted };
+                    } else if order.len() < configured.len() {
+                        ctx.fail(idx, "app/toml-mapping-columns-merged", format!("the application configuration has the {} columns {:?}, the loaded mapping only {:?}: names that differ in case only were merged", configured.len(), configured, order));
+                        own_app = None;
                     } else {
-                        ctx.count("A/app-config-renamed-columns");
+                        ctx.fail(idx, "app/toml-mapping-order", format!("configured columns {:?}, loaded {:?}", configured, order));
                         own_app = None;
                     }
                 }
@@ -1242,12 +1346,26 @@ fn case_a(ctx: &mut Ctx, idx: usize, app: &CompassApp, c0: &AppCase) -> Option<S
     let prefix_ok = file.starts_with(&opened);
     let rest: &str = if prefix_ok { &file[opened.len()..] } else { "" };
     let (lines, terminated) = appended_records(&c.fmt, rest);
+    // under the discard policy nothing but the file says what the searched responses were: get an independent
+    // expectation from a second run of the same batch that keeps its responses and writes no file (they differ
+    // from the first run's in their timestamps and runtimes only)
+    let independent: Option<Vec<Value>> = if c.persist {
+        None
+    } else {
+        let cfg2 = json!({"parallelism": c.parallelism, "response_persistence_policy": "persist_response_in_memory", "response_output_policy": {"type": "none"}});
+        match catch_unwind(AssertUnwindSafe(|| app.run(c.queries.clone(), Some(&cfg2)))) {
+            Ok(Ok(v)) => Some(v),
+            _ => None,
+        }
+    };
     // the responses of queries that failed input processing come last in what is handed back (both policies)
     let split = returned.len().saturating_sub(n_bad);
     let errors_post: Vec<Value> = returned[split..].to_vec();
     let mut inexact = false;
     let searched_post: Vec<Value> = if c.persist {
         returned[..split].to_vec()
+    } else if matches!(c.fmt, FmtSpec::Csv { .. }) {
+        vec![] // rows are not responses: nothing of the searched responses comes back under discard
     } else {
         // nothing else is handed back: take the searched responses from the file (the main thread writes the
         // error responses first)
@@ -1263,13 +1381,48 @@ fn case_a(ctx: &mut Ctx, idx: usize, app: &CompassApp, c0: &AppCase) -> Option<S
             })
             .collect()
     };
-    let (searched_pre, errors_pre): (Vec<Value>, Vec<Value>) = match &c.fmt {
-        FmtSpec::Csv { cols, .. } => (
+    let (searched_pre, errors_pre): (Vec<Value>, Vec<Value>) = match (&c.fmt, &independent) {
+        // CSV under discard: the rows cannot be turned back into responses — the model gets the independent ones
+        (FmtSpec::Csv { .. }, Some(ind)) => {
+            let k = ind.len().saturating_sub(n_bad);
+            (ind[..k].to_vec(), ind[k..].to_vec())
+        }
+        (FmtSpec::Csv { cols, .. }, None) => (
             searched_post.iter().map(|r| before_csv_write(cols, r)).collect(),
             errors_post.iter().map(|r| before_csv_write(cols, r)).collect(),
         ),
         _ => (searched_post.clone(), errors_post.clone()),
     };
+    if let Some(ind) = &independent {
+        ctx.count("A/discard-independent-expectation");
+        // JSON under discard: the records of the file are the independent responses up to timestamps/runtimes
+        if let FmtSpec::Json(true) = &c.fmt {
+            // what two runs of one query certainly share (timestamps, runtimes, memory sizes and the order in
+            // which the application fills some objects from hash maps differ from run to run)
+            let strip = |v: &Value| -> String {
+                sorted_keys(&json!({
+                    "request": v.get("request"),
+                    "error": v.get("error"),
+                    "route_edges": v.get("route_edges"),
+                    "path": v.get("route").and_then(|r| r.get("path")),
+                    "keys": v.as_object().map(|o| { let mut k: Vec<&String> = o.keys().collect(); k.sort(); k }),
+                }))
+                .to_string()
+            };
+            let mut got: Vec<String> = lines.iter().filter_map(|l| serde_json::from_str::<Value>(l).ok()).map(|v| strip(&v)).collect();
+            let mut want: Vec<String> = ind.iter().map(strip).collect();
+            got.sort();
+            want.sort();
+            if got != want && lines.len() == ind.len() {
+                let k = got.iter().zip(&want).position(|(a, b)| a != b).unwrap_or(0);
+                let (a, b) = (&got[k], &want[k]);
+                let d = a.chars().zip(b.chars()).position(|(x, y)| x != y).unwrap_or(0);
+                let from = d.saturating_sub(60);
+                let (sa, sb): (String, String) = (a.chars().skip(from).take(140).collect(), b.chars().skip(from).take(140).collect());
+                ctx.fail(idx, "app/discard-records-differ", format!("under the discard policy the records of the file are not the responses an identical persisting run hands back, e.g. …{} vs …{}", sa, sb));
+            }
+        }
+    }
     let canonical = if !prefix_ok {
         file.clone()
     } else if c.parallelism > 1 {
@@ -1395,7 +1548,7 @@ fn case_a(ctx: &mut Ctx, idx: usize, app: &CompassApp, c0: &AppCase) -> Option<S
                     }
                 }
             }
-            FmtSpec::Csv { cols, .. } if !cols.is_empty() && c.persist => {
+            FmtSpec::Csv { cols, .. } if !cols.is_empty() && (c.persist || independent.is_some()) => {
                 match header_names(cols, &header) {
                     None => ctx.fail(idx, "sink/csv-header", format!("header {:?} does not read back into the mapping's columns", header)),
                     Some(names) => {
@@ -1437,8 +1590,8 @@ fn gen_query(rng: &mut Rng) -> Value {
     }
 }
 
-fn gen_app_format(rng: &mut Rng, persist: bool) -> FmtSpec {
-    if !persist || rng.chance(1, 2) {
+fn gen_app_format(rng: &mut Rng, _persist: bool) -> FmtSpec {
+    if rng.chance(1, 2) {
         return FmtSpec::Json(true);
     }
     let pool: [(&str, MapSpec); 7] = [
@@ -1453,7 +1606,27 @@ fn gen_app_format(rng: &mut Rng, persist: bool) -> FmtSpec {
     let mut idxs: Vec<usize> = (0..pool.len()).collect();
     rng.shuffle(&mut idxs);
     let n = 1 + rng.below(5);
-    FmtSpec::Csv { cols: idxs[..n].iter().map(|&i| (pool[i].0.to_string(), pool[i].1.clone())).collect(), sorted: rng.chance(1, 2) }
+    let mut cols: Vec<(String, MapSpec)> = idxs[..n].iter().map(|&i| (pool[i].0.to_string(), pool[i].1.clone())).collect();
+    // column names as people write them: capitals; now and then two names that differ in case only
+    if rng.chance(1, 3) {
+        for (k, _) in cols.iter_mut() {
+            if rng.chance(1, 2) {
+                let mut cs = k.chars();
+                *k = match cs.next() {
+                    Some(f) => f.to_uppercase().collect::<String>() + cs.as_str(),
+                    None => String::new(),
+                };
+            }
+        }
+        if rng.chance(1, 4) {
+            let twin = cols[0].0.to_lowercase();
+            let twin = if twin == cols[0].0 { twin.to_uppercase() } else { twin };
+            if !cols.iter().any(|(k, _)| *k == twin) {
+                cols.push((twin, p("request.origin_vertex")));
+            }
+        }
+    }
+    FmtSpec::Csv { cols, sorted: rng.chance(1, 2) }
 }
 
 // ---------------------------------------------------------------------------------------------------
@@ -1485,6 +1658,14 @@ fn enc0(v: &Value, out: &mut String) {
 
 fn case_p(ctx: &mut Ctx, idx: usize, rng: &mut Rng) {
     let mut v = if rng.chance(1, 6) { gen_value(rng, 3) } else { gen_response(rng, false) };
+    // around serde_json's recursion limit: `from_str` refuses a text nested 128 deep or deeper
+    if rng.chance(1, 6) {
+        let d = 118 + rng.below(16);
+        for _ in 0..d {
+            v = if rng.chance(1, 2) { json!([v]) } else { json!({ "k": v }) };
+        }
+        ctx.count("P/deeply-nested");
+    }
     // serde_json's default float parser may be off in the last place; the reader keeps lexemes, so use a
     // value whose text is a fixed point of parse-then-print
     let mut line = serde_json::to_string(&v).unwrap_or_default();
@@ -1747,7 +1928,7 @@ fn case_b(ctx: &mut Ctx, idx: usize, mode: char, spec: &PathSpec, fmt: &FmtSpec,
             };
             let iterations = iterations_of(&sink);
             drop(sink);
-            let file = if matches!(spec, PathSpec::Full) { "-".to_string() } else { hex(&std::fs::read_to_string(&path).unwrap_or_default()) };
+            let file = if matches!(spec, PathSpec::Full) { "-".to_string() } else { hex(&mask_csv_errors(&std::fs::read_to_string(&path).unwrap_or_default())) };
             if iterations as usize != n_ok {
                 ctx.fail(idx, "sink/counter", format!("{} successful writes, counter {}", n_ok, iterations));
             }
@@ -1796,43 +1977,75 @@ fn case_z(ctx: &mut Ctx, idx: usize, fmt: &FmtSpec, handles: &[Vec<Vec<Value>>])
         }
     }
     let real_fmt = fmt.build();
-    let sinks: Vec<ResponseSink> = handles
-        .iter()
-        .map(|_| ResponseOutputPolicy::File { filename: path.clone(), format: real_fmt.clone(), file_flush_rate: None }.build().expect("sink builds"))
-        .collect();
-    let opened = std::fs::read_to_string(&path).unwrap_or_default();
+    // every sink is built by its own thread, all released together on the MISSING file: the builds race too
+    // (each `build()` decides on its own whether the file is new and the header due)
+    let header = real_fmt.initial_file_contents().unwrap_or_default();
     let n_threads: usize = handles.iter().map(|h| h.len()).sum();
-    let barrier = Barrier::new(n_threads.max(1));
+    let barrier = Barrier::new(handles.len().max(1));
     std::thread::scope(|s| {
-        for (sink, h) in sinks.iter().zip(handles) {
-            for w in h {
-                let barrier = &barrier;
-                s.spawn(move || {
-                    barrier.wait();
-                    for r in w {
-                        let mut r = r.clone();
-                        let _ = sink.write_response(&mut r);
+        for h in handles {
+            let barrier = &barrier;
+            let (path, real_fmt) = (&path, &real_fmt);
+            s.spawn(move || {
+                barrier.wait();
+                let sink = ResponseOutputPolicy::File { filename: path.clone(), format: real_fmt.clone(), file_flush_rate: None }.build().expect("sink builds");
+                let sink = &sink;
+                std::thread::scope(|s2| {
+                    for w in h {
+                        s2.spawn(move || {
+                            for r in w {
+                                let mut r = r.clone();
+                                let _ = sink.write_response(&mut r);
+                            }
+                        });
                     }
                 });
-            }
+            });
         }
     });
-    drop(sinks);
     let file = std::fs::read_to_string(&path).unwrap_or_default();
     let _ = std::fs::remove_file(&path);
     let all: Vec<&Value> = handles.iter().flatten().flatten().collect();
-    let prefix_ok = file.starts_with(&opened);
-    let rest = if prefix_ok { &file[opened.len()..] } else { "" };
+    // the header is due exactly once; the sink that creates the file writes it right after creating it, so in a
+    // rare schedule another sink's first record may land before it (nothing is lost: counted, not a failure)
+    let (mut raw, left) = match fmt {
+        FmtSpec::Csv { .. } => {
+            let (r, l) = csv_raw_records(&file);
+            (r.into_iter().map(|x| x.to_string()).collect::<Vec<String>>(), l.to_string())
+        }
+        _ => {
+            let mut v: Vec<String> = file.split_inclusive('\n').map(|x| x.to_string()).collect();
+            let l = if file.ends_with('\n') || file.is_empty() { String::new() } else { v.pop().unwrap_or_default() };
+            (v, l)
+        }
+    };
+    let header_count = if header.is_empty() { 1 } else { raw.iter().filter(|r| **r == header).count() };
+    if !header.is_empty() {
+        if raw.first() != Some(&header) && header_count == 1 {
+            ctx.count("Z/header-not-first");
+        }
+        if let Some(k) = raw.iter().position(|r| *r == header) {
+            raw.remove(k);
+        }
+    }
+    let opened = header.clone();
+    let rest: String = raw.concat() + &left;
+    let rest = rest.as_str();
+    let prefix_ok = header_count == 1;
     let canonical = if prefix_ok { canonical_file(fmt, &opened, rest) } else { file.clone() };
     ctx.count(&format!("Z/handles-{}", handles.len()));
     ctx.count(&format!("Z/threads-{}", n_threads));
     ctx.nontrivial(&format!("Z {} {} {} {}", fmt.shape(), handles.len(), n_threads, all.len()));
     // ---- oracle: one intact record per response although the writers do not share a lock
     if !prefix_ok {
-        ctx.fail(idx, "sink/file-prefix-changed", format!("{:?} -> {:?}", clip(&opened), clip(&file)));
+        ctx.fail(idx, "sink/concurrent-build-truncates", format!("{} sinks built at the same time on a missing file: {} header records in the file ({} records for {} responses)", handles.len(), header_count, raw.len(), all.len()));
     } else {
         let (records, terminated) = appended_records(fmt, rest);
-        let mut intact = terminated && records.len() == all.len();
+        if records.len() < all.len() {
+            ctx.fail(idx, "sink/concurrent-build-truncates", format!("{} sinks built at the same time on a missing file: {} records for {} responses — a later build truncated what an earlier sink had written", handles.len(), records.len(), all.len()));
+        }
+        let mut intact = terminated && records.len() >= all.len();
+        intact = intact && records.len() == all.len();
         if intact {
             match fmt {
                 FmtSpec::Json(_) => {
@@ -1852,7 +2065,7 @@ fn case_z(ctx: &mut Ctx, idx: usize, fmt: &FmtSpec, handles: &[Vec<Vec<Value>>])
                 }
             }
         }
-        if !intact {
+        if !intact && records.len() >= all.len() {
             let blank = records.iter().filter(|r| r.is_empty()).count();
             ctx.fail(
                 idx,
@@ -1958,7 +2171,7 @@ fn case_y(ctx: &mut Ctx, idx: usize, members: &[MemberSpec], nest: bool, close: 
                 if matches!(m.path, PathSpec::Full) {
                     o.push('-');
                 } else {
-                    o.push_str(&hex(&std::fs::read_to_string(p).unwrap_or_default()));
+                    o.push_str(&hex(&mask_csv_errors(&std::fs::read_to_string(p).unwrap_or_default())));
                 }
             }
             o.push_str(&format!(" {}", outs.len()));
@@ -2199,7 +2412,7 @@ pub fn run(ctx: &mut Ctx) -> &'static str {
         // the text of the mapping-error messages is not modelled, so no member may *print* what an earlier
         // CSV member stored in the response: JSON members go first, later CSV members do not select the
         // error keys (the response handed back, compared below, still shows every member's bookkeeping)
-        fmts.sort_by_key(|f| !matches!(f, FmtSpec::Json(_)));
+        // (a JSON member may follow a CSV member: the error object it prints is compared with its messages masked)
         let mut seen_csv = false;
         for f in fmts.iter_mut() {
             if let FmtSpec::Csv { cols, .. } = f {
@@ -2346,13 +2559,25 @@ pub fn run(ctx: &mut Ctx) -> &'static str {
             .collect();
         case_z(ctx, idx, &fmt, &handles);
     }
+    // ---- many sinks built at the same moment on a missing file, a few short records each: the builds race
+    for _ in 0..ctx.n(150, 1200) {
+        let (idx, true) = begin!() else { continue };
+        let mut rng = Rng::for_case(ctx.seed, PROP, idx as u64);
+        let fmt = if rng.chance(1, 4) { FmtSpec::Json(true) } else { csv(&[("origin", p("request.origin_vertex")), ("dest", p("request.destination_vertex"))], rng.chance(1, 2)) };
+        let k = 6 + rng.below(11);
+        let handles: Vec<Vec<Vec<Value>>> = (0..k).map(|_| vec![(0..1 + rng.below(3)).map(|_| json!({"request": gen_request(&mut rng)})).collect()]).collect();
+        ctx.count("Z/build-race");
+        case_z(ctx, idx, &fmt, &handles);
+    }
     // ---- generated: Combined policies from build to close
     for _ in 0..ctx.n(250, 2500) {
         let (idx, true) = begin!() else { continue };
         let mut rng = Rng::for_case(ctx.seed, PROP, idx as u64);
         let k = rng.below(4);
         let mut fmts: Vec<FmtSpec> = (0..k).map(|_| gen_format(&mut rng, true)).collect();
-        fmts.sort_by_key(|f| !matches!(f, FmtSpec::Json(_)));
+        // a newline-delimited JSON member may follow a CSV member: the error object it prints is compared with its
+        // messages masked; the pretty-printed array form spreads that object over lines — those members go first
+        fmts.sort_by_key(|f| !matches!(f, FmtSpec::Json(false)));
         let mut seen_csv = false;
         for f in fmts.iter_mut() {
             if let FmtSpec::Csv { cols, .. } = f {
@@ -2402,6 +2627,73 @@ pub fn run(ctx: &mut Ctx) -> &'static str {
             let f = csv(&[("origin", p("request.origin_vertex")), ("distance", p("route.traversal_summary.distance"))], false);
             let c = AppCase { existing: None, via_app_config: false, fmt: f, rate: None, persist: true, parallelism: 3, queries: vec![json!({"origin_vertex": 0, "destination_vertex": 2}), json!(5), json!({"origin_vertex": 2, "destination_vertex": 0})] };
             case_a(ctx, idx, &app, &c);
+        }
+        // corpus (known finding): a mapping given in the application's TOML has its column names lower-cased
+        // by the `config` crate, and names that then coincide are merged — a configured column disappears
+        for cols in [
+            vec![("Zeta", p("request.origin_vertex")), ("alpha col", p("route_edges")), ("Origin Vertex", p("request.origin_vertex"))],
+            vec![("Time", MapSpec::Optional(Box::new(p("route.traversal_summary.time")))), ("time", MapSpec::Optional(Box::new(p("request.time")))), ("Zeta", p("request.origin_vertex"))],
+        ] {
+            if let (idx, true) = begin!() {
+                let c = AppCase { existing: None, via_app_config: true, fmt: csv(&cols, false), rate: None, persist: true, parallelism: 2, queries: vec![json!({"origin_vertex": 0, "destination_vertex": 2})] };
+                case_a(ctx, idx, &app, &c);
+            }
+        }
+        // the model of what the `config` crate makes of the column names (Sink.tomlMapping) against the crate
+        for _ in 0..ctx.n(40, 300) {
+            let (idx, true) = begin!() else { continue };
+            let mut rng = Rng::for_case(ctx.seed, PROP, idx as u64);
+            let base = ["time", "zeta", "alpha col", "origin", "km_total", "edges"];
+            let n = 1 + rng.below(5);
+            let mut names: Vec<String> = vec![];
+            for _ in 0..n {
+                let b = rng.pick(&base).to_string();
+                let k = match rng.below(4) {
+                    0 => b.to_uppercase(),
+                    1 => {
+                        let mut cs = b.chars();
+                        cs.next().map(|f| f.to_uppercase().collect::<String>() + cs.as_str()).unwrap_or_default()
+                    }
+                    _ => b,
+                };
+                if !names.contains(&k) {
+                    names.push(k);
+                }
+            }
+            let mut m = Map::new();
+            for k in &names {
+                m.insert(k.clone(), json!("request.origin_vertex"));
+            }
+            let policy = json!({"type": "file", "filename": file_path(idx), "format": {"type": "csv", "sorted": false, "mapping": Value::Object(m)}});
+            let top = format!("parallelism = 1\nresponse_output_policy = {}", toml_inline(&policy));
+            let loaded: Option<Vec<String>> = build_app(&top).and_then(|own| match &own.response_output_policy {
+                ResponseOutputPolicy::File { format: ResponseOutputFormat::Csv { mapping, .. }, .. } => Some(mapping.keys().cloned().collect()),
+                _ => None,
+            });
+            let mut line = format!("T {}", names.len());
+            for k in &names {
+                line.push(' ');
+                line.push_str(&hex(k));
+            }
+            let out = match loaded {
+                Some(ks) => {
+                    if ks.len() < names.len() {
+                        ctx.count("T/columns-merged");
+                    } else if ks != names {
+                        ctx.count("T/names-lowercased");
+                    } else {
+                        ctx.count("T/as-configured");
+                    }
+                    let mut o = format!("{}", ks.len());
+                    for k in &ks {
+                        o.push(' ');
+                        o.push_str(&hex(k));
+                    }
+                    o
+                }
+                None => "did-not-load".to_string(),
+            };
+            ctx.emit(idx, line, out);
         }
         let n_app = ctx.n(150, 1500);
         let mut k = 0;
